@@ -60,12 +60,22 @@ def fc_functions():
             short = name.split("::")[1]
             head, body = sl.text.split("{", 1)
             n = len(re.findall(r"\b%s\(" % short, body))
-            if n < 1:
-                raise X.ExtractionBroken(f"{name}: recursive self-call expected")
+            # a non-recursive (iterative) rewrite is legal: then the one-level induction step does not apply
+            # and the bounded whole-function job (c17_assign_chain) stands in - see build()
             sl.text = head + "{" + re.sub(r"\b%s\(" % short, short + "__contract(", body)
             sl.rules["L12:self-call->contract"] = n
+            RECURSIVE[short] = n > 0
         out.append(sl)
-    return out
+    # helpers a refactoring may have introduced (file-local static functions) come along verbatim
+    known = {s.split("::")[-1] for s, _ in sigs}
+    extra = X.static_helpers(src, exclude=known)
+    for h in extra:
+        for w in ("uses_fp", "uses_hybrid", "uses_clock"):
+            h.sub(f"L12b:{w}->contract", r"\.%s\(\)" % w, f".{w}__contract()")
+    return extra + out
+
+
+RECURSIVE = {}
 
 
 def build(tier, work, builder):
@@ -90,6 +100,9 @@ def build(tier, work, builder):
         raise X.ExtractionBroken("visitTemplate: something is visited outside `if (visitor.visitTemplateBefore(t))`")
     slices.append(gate)
     tcobj = builder.cc(os.path.join(CDIR, "fc17.cpp"), includes=[work, os.path.join(X.REPO, "include")], cpp=True)
+    # the same functions with visitAssignment's self-calls left in place (real recursion) for the bounded chain job
+    write(work, "fc_funcs_real.inc", "\n".join(s.text for s in fs).replace("visitAssignment__contract(", "visitAssignment__real(") + "\n")
+    tcobj_real = builder.cc(os.path.join(CDIR, "fc17.cpp"), includes=[work, os.path.join(X.REPO, "include")], cpp=True, defines=["VERIF_REAL_ASSIGN"])
     hobj = builder.cc(os.path.join(CDIR, "h_c17.c"), includes=[work], defines=["EXCLUDE_KF"] + KF_DEFS)
     hobj_kf = builder.cc(os.path.join(CDIR, "h_c17.c"), includes=[work], defines=KF_DEFS)
     jobs = []
@@ -101,7 +114,11 @@ def build(tier, work, builder):
     J("c17_uses_hybrid", "h_c17_uses_hybrid", ["expression_t::uses_hybrid (one level)"])
     J("c17_uses_clock", "h_c17_uses_clock", ["expression_t::uses_clock (one level)"])
     J("c17_guard", "h_c17_guard", ["FeatureChecker::visitGuard"])
-    J("c17_assign", "h_c17_assign", ["FeatureChecker::visitAssignment (one level)"])
+    if RECURSIVE.get("visitAssignment", True):
+        J("c17_assign", "h_c17_assign", ["FeatureChecker::visitAssignment (one level)"])
+    jobs.append(F.Job("c17_assign_chain", "h_c17_assign_chain", [tcobj_real, hobj], timeout=300, unwind=8, level="bounded",
+                      functions=["FeatureChecker::visitAssignment (whole function, real recursion / iteration)"],
+                      bound_note="update lists of <= 4 elements in the parser's left-nested COMMA shape; stands in for the induction step when visitAssignment is not recursive"))
     J("c17_location", "h_c17_location", ["FeatureChecker::visitLocation", "FeatureChecker::isRateDisallowedInSymbolic (one level)"])
     J("c17_variable", "h_c17_variable", ["FeatureChecker::visitVariable"])
     J("c17_frame", "h_c17_frame", ["FeatureChecker::visitFrame"])
